@@ -59,6 +59,7 @@ void DtlsSim::flush(int role) {
         Bytes d = e.pull();
         if (d.empty()) { break; }
         DtlsSentDg s; s.dir = dir; s.emit_index = emit_count++; s.data = d; s.at = now; s.handshake_phase = !e.complete; s.recs = split_records(d, true);
+        for (auto &r : s.recs) { if (r.epoch > 0) { audit.on_wire_dtls_record(e.ssl, r.epoch, r.seq, r.raw.data(), r.raw.size()); } }
         { uint32_t suite = e.negotiated_suite(); if (suite && !suite_is_aead((uint16_t) suite)) { for (auto &r : s.recs) { if (r.epoch > 0 && r.type != 20) { audit.on_wire_cbc_record(e.ssl, r.raw.data() + r.hdr, r.body_len(), true); } } } }
         if (complete_event[role] >= 0 && events_run > complete_event[role]) { for (auto &r : s.recs) { if (r.type == 20 || r.type == 22) { post_completion_resend = true; counters["probe.final_flight_resent_after_completion"]++; break; } } }
         emitted.push_back(s);
